@@ -292,6 +292,46 @@ Section MODEL.
     | (s1, Ok h) => rekey_core f s1 (fst h) new
     end.
 
+  (* j = project.open_job(id=i); j.update_statepoint(upd, overwrite=True)   (a handle reached BY ID or by iteration).
+     update_statepoint starts from self.statepoint() — a fresh plain dict; a lazy load registers the loaded data —,
+     applies dict.update(upd) to that copy and assigns the result through the setter.  The dict held in _sp_cache
+     under the old id is never written to: after a rejected re-key (DestinationExistsError) or when the old id is
+     created again by another session, the old id still maps to the old state point.  (For values of which no two
+     different ones compare == in Python the merge of reset() takes the new data over; the other case is C04's.) *)
+  Definition op_upd_id (f : fs) (s : sess) (i : str) (upd : json) : fs * sess * result unit :=
+    match open_id f s i with
+    | (s1, Err e) => (f, s1, Err e)
+    | (s1, Ok h) =>
+        match handle_sp f s1 h with
+        | (s2, Err e) => (f, s2, Err e)
+        | (s2, Ok sp) =>
+            match sp, upd with
+            | JObj kvs, JObj u => rekey_core f s2 (fst h) (JObj (dict_upd kvs u))
+            | _, _ => (f, s2, Err EOther)
+            end
+        end
+    end.
+
+  (* n accesses of job.statepoint through the SAME handle: a successful access binds the handle's
+     _cached_statepoint (and clears _statepoint_requires_init); a failed one (JobsCorruptedError from load)
+     leaves the handle as it was, so the next access loads and validates again *)
+  Fixpoint handle_sp_rep (n : nat) (f : fs) (s : sess) (h : str * option json) : sess * list (result json) :=
+    match n with
+    | O => (s, [])
+    | S k =>
+        let '(s1, r) := handle_sp f s h in
+        let h1 := match r with Ok v => (fst h, Some v) | Err _ => h end in
+        let '(s2, l) := handle_sp_rep k f s1 h1 in
+        (s2, r :: l)
+    end.
+
+  (* j = project.open_job(id=i), then n accesses; when open_job itself raises there is no handle: n times that *)
+  Definition open_sp_rep (n : nat) (f : fs) (s : sess) (i : str) : sess * list (result json) :=
+    match open_id f s i with
+    | (s1, Err e) => (s1, repeat (Err e) n)
+    | (s1, Ok h) => handle_sp_rep n f s1 h
+    end.
+
   (* j = project.open_job(id=i); j.cached_statepoint   (also what iteration handles show) *)
   Definition cached_by_id (f : fs) (s : sess) (i : str) : sess * result json :=
     match open_id f s i with
